@@ -642,4 +642,174 @@ theorem parseWith_complete {o : Opts} {rOk : Bool} {a : Atom} (h : WF0 lenient o
   rw [hrender, parseWith_of_stages h0 h1 h2 h3 h4 h5 h6 h7 hrepoOk h9 h10]
   simp [mkAtom, norm, hneg]
 
+
+/-! ## soundness of the stages -/
+
+def useTxtOf : Option Str → Str
+  | none => []
+  | some body => '[' :: body ++ [']']
+
+theorem splitUse_sound {s t : Str} {useBody : Option Str} (h : splitUse s = .ok (t, useBody)) :
+    s = t ++ useTxtOf useBody := by
+  unfold splitUse at h
+  cases hb : breakOn '[' s with
+  | none =>
+    simp only [hb, Except.ok.injEq, Prod.mk.injEq] at h
+    obtain ⟨rfl, rfl⟩ := h
+    simp [useTxtOf]
+  | some p =>
+    obtain ⟨pre, post⟩ := p
+    simp only [hb] at h
+    obtain ⟨hs, _⟩ := breakOn_sound hb
+    cases hb2 : breakOn ']' post with
+    | none => simp [hb2] at h
+    | some q =>
+      obtain ⟨body, rest⟩ := q
+      simp only [hb2] at h
+      obtain ⟨hp, _⟩ := breakOn_sound hb2
+      cases rest with
+      | cons _ _ => simp at h
+      | nil =>
+        simp only [List.isEmpty_nil, if_true, Except.ok.injEq, Prod.mk.injEq] at h
+        obtain ⟨rfl, rfl⟩ := h
+        rw [hs, hp]
+        simp [useTxtOf]
+
+theorem useStage_sound {o : Opts} {useBody : Option Str} {use : Option (List Str)} (h : useStage o useBody = .ok use) :
+    use = (useBody.map (splitOn ',')).map sortUse ∧
+      ∀ body, useBody = some body → ∀ t ∈ splitOn ',' body, useTokOk o t := by
+  unfold useStage at h
+  cases useBody with
+  | none =>
+    simp only [Except.ok.injEq] at h
+    subst h
+    exact ⟨rfl, fun _ e => by cases e⟩
+  | some body =>
+    simp only at h
+    cases hp : parseUse o body with
+    | error e => simp [hp] at h
+    | ok u =>
+      simp only [hp, Except.ok.injEq] at h
+      subst h
+      obtain ⟨hu, hall⟩ := (parseUse_ok_iff o body u).mp hp
+      refine ⟨by simp [hu], ?_⟩
+      intro b e t ht
+      simp only [Option.some.injEq] at e
+      subst e
+      exact checkUseTok_sound (hall t ht)
+
+theorem findSlot_sound {b : Bool} {t h rest : Str} (hf : findSlot b t = some (h, rest)) : t = h ++ ':' :: rest := by
+  unfold findSlot at hf
+  cases hb : breakOn ':' t with
+  | none => simp [hb] at hf
+  | some p =>
+    obtain ⟨h', rest'⟩ := p
+    simp only [hb] at hf
+    split at hf
+    · simp only [Option.some.injEq, Prod.mk.injEq] at hf
+      obtain ⟨rfl, rfl⟩ := hf
+      exact (breakOn_sound hb).1
+    · cases hf
+
+theorem slotStage_sound {o : Opts} {b : Bool} {t t' : Str} {si : SlotInfo} (h : slotStage o b t = .ok (t', si)) :
+    t = t' ++ slotPartTxt si.slot si.subslot si.slotOp ++ repoTxtOf si.repo ∧
+      ((si.slot.isSome = true → o.hasSlotDeps = true) → slotOk' lenient o si.slot si.subslot si.slotOp) ∧
+      (∀ r, si.repo = some r → repoNameOk r = true) := by
+  unfold slotStage at h
+  cases hf : findSlot b t with
+  | none =>
+    simp only [hf, Except.ok.injEq, Prod.mk.injEq] at h
+    obtain ⟨rfl, rfl⟩ := h
+    refine ⟨by simp [slotPartTxt, slotTxtOf, repoTxtOf], fun _ => ⟨rfl, Or.inl rfl⟩, fun r e => by cases e⟩
+  | some p =>
+    obtain ⟨hd, rest⟩ := p
+    simp only [hf] at h
+    cases hp : parseSlotPart o rest with
+    | error e => simp [hp] at h
+    | ok si' =>
+      simp only [hp, Except.ok.injEq, Prod.mk.injEq] at h
+      obtain ⟨rfl, rfl⟩ := h
+      obtain ⟨h1, h2, h3⟩ := parseSlotPart_sound hp
+      refine ⟨?_, h2, h3⟩
+      rw [findSlot_sound hf, List.append_assoc, ← h1]
+
+theorem vopStage_sound {op : Option Op} {vr : Option (Ver × Str)} {vop : Option (Op × Ver × Str)}
+    (h : vopStage op vr = .ok vop) :
+    (op = none ∧ vr = none ∧ vop = none) ∨
+      ∃ o' v r, op = some o' ∧ vr = some (v, r) ∧ vop = some (o', v, r) ∧ (o' = .tilde → r = []) := by
+  unfold vopStage at h
+  split at h
+  · rename_i o' v r
+    split at h
+    · cases h
+    · rename_i hc
+      simp only [Except.ok.injEq] at h
+      subst h
+      refine Or.inr ⟨o', v, r, rfl, rfl, rfl, fun ht => ?_⟩
+      simp only [not_and, Bool.not_eq_true', Bool.not_eq_false] at hc
+      have := hc ht
+      simpa using this
+  · simp only [Except.ok.injEq] at h
+    subst h
+    exact Or.inl ⟨rfl, rfl, rfl⟩
+  · cases h
+  · cases h
+
+/-- **soundness**: an accepted string is the rendering of a well-formed record, and the result is that
+record with the USE tokens sorted -/
+theorem parseWith_sound {o : Opts} {rOk : Bool} {s : Str} {a : Atom} (h : parseWith o rOk s = .ok a) :
+    ∃ a0, WF0 lenient o rOk a0 ∧ render a0 = s ∧ norm a0 = a := by
+  obtain ⟨t, t', t'', cpvstr, cat, pkg, useBody, use, si, b, st, op, vr, vop, _, h1, h2, h3, h4, h5, h6, h7, h8,
+    h9, h10, rfl⟩ := stages_of_parseWith h
+  have e1 := splitUse_sound h1
+  obtain ⟨e2, htok⟩ := useStage_sound h2
+  obtain ⟨e3, hslot, hrepo⟩ := slotStage_sound h3
+  obtain ⟨e4, hstrong⟩ := parseBlocks_sound h4
+  have e5 := parseOp_sound h5
+  obtain ⟨hcat, hpkg, hvn, hvs⟩ := parseCpv_sound h9
+  have hslot' := hslot h6
+  refine ⟨mkAtom cat pkg vop b st si (useBody.map (splitOn ',')), ?_, ?_, ?_⟩
+  · -- well-formed
+    refine ⟨hcat, hpkg, ?_, hstrong, rfl, hslot', ?_, ?_⟩
+    · rcases vopStage_sound h10 with ⟨_, _, rfl⟩ | ⟨o', v, r, _, hvr, rfl, ht⟩
+      · trivial
+      · obtain ⟨_, hv1, hv2, _⟩ := hvs v r hvr
+        exact ⟨hv1, hv2, ht⟩
+    · show match si.repo with | none => True | some r => rOk = true ∧ repoNameOk r = true
+      cases hr : si.repo with
+      | none => trivial
+      | some r => exact ⟨h8 (by simp [hr]), hrepo r hr⟩
+    · show match useBody.map (splitOn ',') with
+        | none => True
+        | some u => o.hasUseDeps = true ∧ u ≠ [] ∧ ∀ t ∈ u, useTokOk o t
+      cases hub : useBody with
+      | none => trivial
+      | some body =>
+        refine ⟨h7 (by rw [e2, hub]; rfl), splitOn_ne_nil _ _, htok body hub⟩
+  · -- renders to the input
+    have hcpv : cpvText (mkAtom cat pkg vop b st si (useBody.map (splitOn ','))) = cpvstr := by
+      rcases vopStage_sound h10 with ⟨_, hvr, rfl⟩ | ⟨o', v, r, _, hvr, rfl, _⟩
+      · obtain ⟨_, e⟩ := hvn hvr
+        simp [cpvText, mkAtom, e]
+      · obtain ⟨_, _, _, e⟩ := hvs v r hvr
+        simp [cpvText, mkAtom, e, revText]
+    have hop : (mkAtom cat pkg vop b st si (useBody.map (splitOn ','))).vop.map (·.1) = op := by
+      rcases vopStage_sound h10 with ⟨e, _, rfl⟩ | ⟨o', v, r, e, _, rfl, _⟩ <;> simp [mkAtom, e]
+    have huse : renderUse (mkAtom cat pkg vop b st si (useBody.map (splitOn ','))) = useTxtOf useBody := by
+      cases hub : useBody with
+      | none => rfl
+      | some body =>
+        simp only [renderUse, mkAtom, Option.map_some, useTxtOf]
+        cases hsp : splitOn ',' body with
+        | nil => exact absurd hsp (splitOn_ne_nil _ _)
+        | cons p ps => simp only [← hsp, joinSep_splitOn]
+    rw [render_eq, hcpv, hop, renderSlot_eq _ (show slotOk' lenient o
+        (mkAtom cat pkg vop b st si (useBody.map (splitOn ','))).slot
+        (mkAtom cat pkg vop b st si (useBody.map (splitOn ','))).subslot
+        (mkAtom cat pkg vop b st si (useBody.map (splitOn ','))).slotOp from hslot'),
+      repoTxt_eq (mkAtom cat pkg vop b st si (useBody.map (splitOn ','))).repo hrepo, huse, e1, e3, e4, e5]
+    rfl
+  · -- the result is the normal form
+    simp [norm, mkAtom, e2]
+
 end Pkgcore.C03
